@@ -261,6 +261,8 @@ def step (stt : Stats) (lineNo : Nat) (line : String) : IO Stats := do
       match parse (ast.length + 1) ast with
       | some (.block prog, []) =>
         if Spec.isTimeout o.min then return { stt with skippedTimeout := stt.skippedTimeout + 1 }
+        if Spec.isParserCapacity o.min || Spec.isParserCapacity o.full then
+          return { stt with skippedTimeout := stt.skippedTimeout + 1 }
         let r := run 60000 prog
         stt := { stt with maxDepthSeen := max stt.maxDepthSeen r.2.maxDepth }
         match expect r with
